@@ -128,6 +128,7 @@ long vf_region_end(void) { rt_counting = 0; return rt_count_allocs; }
 
 /* ---------------- exceptions */
 int rt_exc_pending;
+int rt_uncaught;            /* std::uncaught_exceptions(): thrown or rethrown and not yet entered a handler */
 void *rt_exc_obj;
 struct rt_exc_hdr { long refs; void *ti; void *pad; void *pad2; };
 #define RT_HDR(o) ((struct rt_exc_hdr*)((char*)(o) - sizeof(struct rt_exc_hdr)))
@@ -153,7 +154,7 @@ static void *rt_cxa_init_primary_exception(void *o, void *ti, void *dtor) {
 }
 static void rt_cxa_throw(void *o, void *ti, void *dtor) {
   RT_HDR(o)->ti = ti; RT_HDR(o)->refs = 1;
-  rt_exc_obj = o; rt_exc_pending = 1;
+  rt_exc_obj = o; rt_exc_pending = 1; rt_uncaught++;
 }
 static int rt_type_matches(void *t, void *c) {
   int i;
@@ -179,7 +180,7 @@ static void *rt_landing(uint32_t *sel, int n, void **clauses, uint32_t *ids, int
 static void rt_resume_unwind(void *o) { rt_exc_obj = o; rt_exc_pending = 1; }
 static void *rt_cxa_begin_catch(void *o) {
   __CPROVER_assert(rt_caught_n < 8, "rt: caught stack overflow");
-  rt_caught[rt_caught_n++] = o; rt_exc_pending = 0;
+  rt_caught[rt_caught_n++] = o; rt_exc_pending = 0; if (rt_uncaught > 0) rt_uncaught--;
   return o;
 }
 static void rt_cxa_end_catch(void) {
@@ -191,7 +192,7 @@ static void rt_cxa_rethrow(void) {
   __CPROVER_assert(rt_caught_n > 0, "rt: rethrow without active exception (std::terminate)");
   void *o = rt_caught[rt_caught_n - 1];
   RT_HDR(o)->refs++;
-  rt_exc_obj = o; rt_exc_pending = 1;
+  rt_exc_obj = o; rt_exc_pending = 1; rt_uncaught++;
 }
 /* std::current_exception(): sret exception_ptr { void *obj } */
 static void rt_current_exception(void **ep) {
@@ -201,8 +202,9 @@ static void rt_rethrow_exception(void **ep) {
   void *o = *ep;
   __CPROVER_assert(o != 0, "rt: rethrow_exception(null)");
   RT_HDR(o)->refs++;
-  rt_exc_obj = o; rt_exc_pending = 1;
+  rt_exc_obj = o; rt_exc_pending = 1; rt_uncaught++;
 }
+static int rt_uncaught_exceptions(void) { return rt_uncaught; }
 static void rt_eptr_addref(void **ep) { if (*ep) RT_HDR(*ep)->refs++; }
 static void rt_eptr_release(void **ep) { if (*ep) { rt_exc_release(*ep); *ep = 0; } }
 static void rt_eptr_ctor(void **ep, void *o) { *ep = o; if (o) RT_HDR(o)->refs++; }
@@ -309,10 +311,24 @@ static int rt_clock_gettime(long clk, void *ts) {
   struct rt_timespec *t = (struct rt_timespec*)ts;
   t->tv_sec = rt_clock_ns / 1000000000; t->tv_nsec = rt_clock_ns % 1000000000; return 0;
 }
+/* "another thread acts while this one sits in a timed condition-variable wait": one-shot hook armed by the harness (vf_cwait_arm). The wait has released
+   the mutex; the other thread's operation runs; if it notified the condition variable the wait returns at once (woken, clock unchanged), otherwise it
+   times out as usual. A notification issued while nobody waits is lost, as in reality. */
+rt_inject_fn *rt_cwait_f; int rt_cond_notified;
+void vf_cwait_arm(rt_inject_fn *fn) { rt_cwait_f = fn; }
+int vf_cwait_pending(void) { return rt_cwait_f != 0; }
+void vf_cwait_disarm(void) { rt_cwait_f = 0; }
 static int rt_cond_timedwait(void *c, void *m, void *ts) {
   struct rt_timespec *t = (struct rt_timespec*)ts;
   int *st = (int*)m;
   __CPROVER_assert(*st == 1, "rt: condition_variable timed wait while the mutex is not locked");
+  if (rt_cwait_f != 0 && !rt_in_hook) {
+    rt_inject_fn *f = rt_cwait_f; rt_cwait_f = 0; rt_cond_notified = 0;
+    *st = 0; rt_in_hook = 1; f(); rt_in_hook = 0;
+    __CPROVER_assert(*st == 0, "rt: the other thread left the mutex locked");
+    *st = 1;
+    if (rt_cond_notified) return 0;
+  }
   if (t->tv_sec >= 9223372036L) {   /* time_point::max() */
     __CPROVER_assert(0, "rt: condition_variable wait without deadline and no other thread to notify (blocks forever)");
     __CPROVER_assume(0);
@@ -399,10 +415,12 @@ static void rt_cond_wait(void *cv, void *ulock) {
 }
 static void rt_cond_notify_all(void *cv) {
   int i;
+  rt_cond_notified = 1;
   for (i = 1; i <= rt_nthreads; i++) if (rt_t_state[i] == RT_T_PARKED && rt_t_cond[i] == cv) rt_t_state[i] = RT_T_WOKEN;
 }
 static void rt_cond_notify_one(void *cv) {
   int i, pick = 0;
+  rt_cond_notified = 1;
   for (i = 1; i <= rt_nthreads; i++)
     if (rt_t_state[i] == RT_T_PARKED && rt_t_cond[i] == cv && (pick == 0 || rt_cond_pick == 1)) pick = i;
   if (pick) rt_t_state[pick] = RT_T_WOKEN;
